@@ -636,6 +636,9 @@ def extract(repo, old_sections):
             elif u == 'self.write_stream(content, validate=validate)':
                 steps.append('WDump')
             elif isinstance(st, ast.Try) and "open(filepath, 'wb')" in u and 'f.write(content.read())' in u and 'raise error.WriteError(e.errno, filepath)' in u:
+                # the try statement must do nothing but open-write and map OSError to WriteError (no clean-up that touches the target)
+                if ' '.join(u.split()) != "try: with open(filepath, 'wb') as f: f.write(content.read()) except OSError as e: raise error.WriteError(e.errno, filepath)":
+                    fail('Torrent.write: unexpected try statement around open/write: ' + ' '.join(u.split())[:300])
                 steps.append('WOpenWrite')
             else:
                 fail('Torrent.write: unexpected statement: ' + u[:100])
@@ -651,6 +654,8 @@ def extract(repo, old_sections):
             if u == 'content = self.dump(validate=validate)':
                 steps.append('SDump')
             elif isinstance(st, ast.Try) and 'raise error.WriteError(e.errno)' in u:
+                if st.orelse or st.finalbody or len(st.handlers) != 1 or ' '.join(ast.unparse(st.handlers[0]).split()) != 'except OSError as e: raise error.WriteError(e.errno)':
+                    fail('write_stream: unexpected handlers of the try statement: ' + ' '.join(u.split())[:300])
                 for t in st.body:
                     tu = ast.unparse(t)
                     if isinstance(t, ast.If) and ast.unparse(t.test) == 'stream.seekable()' and [ast.unparse(x) for x in t.body] == ['stream.seek(0)', 'stream.truncate(0)']:
